@@ -177,7 +177,9 @@ def R(t):
 
 def to_openapi(n: dict) -> dict:
     if "r" in n:
-        return {"$ref": "#/components/schemas/" + n["r"]}
+        # "via": a JSON pointer BELOW a component (`#/components/schemas/Order/properties/status`).  The loader - and therefore the
+        # model, which only sees the last segment - resolves every $ref by its last segment.
+        return {"$ref": "#/components/schemas/" + (n["via"] + "/" if n.get("via") else "") + n["r"]}
     if "p" in n:
         d = {"type": n["p"]}
         if n.get("e"):
@@ -392,12 +394,45 @@ def ranks_of(decls: list):
         return None
 
 
+def _add_nested_pointers(rng: random.Random, decls: list) -> list:
+    """$refs that point below a component: to a property of a declared object, from another property of the same or of another
+    schema; sometimes the pointer sits INSIDE the property it points to (array items / map values), which is a cycle that no named
+    schema lies on."""
+    objs = [d for d in decls if isinstance(d[1], dict) and isinstance(d[1].get("o"), list) and d[1]["o"] and "all" not in d[1]]
+    if not objs:
+        return decls
+    for _ in range(rng.randint(1, 2)):
+        d = rng.choice(objs)
+        k = rng.choice(d[1]["o"])[0]
+        ptr = {"r": k, "via": d[0] + "/properties"}
+        r = rng.random()
+        if r < 0.35:
+            holder = rng.choice(objs)
+            if all(kv[0] != "ptr" for kv in holder[1]["o"]):
+                holder[1]["o"].append(["ptr", ptr])
+        elif r < 0.7:
+            for kv in d[1]["o"]:
+                if kv[0] == k:
+                    kv[1] = {"i": ptr} if rng.random() < 0.5 else {"o": None, "q": [], "a": ptr}
+        else:
+            holder = rng.choice(objs)
+            if all(kv[0] != "ptrs" for kv in holder[1]["o"]):
+                holder[1]["o"].append(["ptrs", {"i": ptr}])
+    return decls
+
+
 def gen_decls(rng: random.Random) -> list:
     r0 = rng.random()
     if r0 < 0.12:
         return gen_simple_dag(rng)
     if r0 < 0.35:
         return _gen_refheavy(rng)
+    if r0 < 0.43:
+        return _add_nested_pointers(rng, _gen_decls_plain(rng))
+    return _gen_decls_plain(rng)
+
+
+def _gen_decls_plain(rng: random.Random) -> list:
     k = rng.randint(1, 5)
     style = rng.random()
     if style < 0.3:
@@ -455,6 +490,19 @@ def ref_shape(schemas: dict, node: dict, visiting: frozenset):
     if node.get("type") == "object":
         return {k: ref_kind(v) for k, v in node.get("properties", {}).items()}, set(node.get("required", []))
     return {}, set()
+
+
+def _pointer_target(schemas: dict, pn: dict):
+    """The node a nested-pointer ref designates (JSON pointer below components/schemas), or None."""
+    cur = schemas
+    for seg in (pn["via"] + "/" + pn["r"]).split("/"):
+        if isinstance(cur, dict) and seg in cur:
+            cur = cur[seg]
+        elif isinstance(cur, list) and seg.isdigit() and int(seg) < len(cur):
+            cur = cur[int(seg)]
+        else:
+            return None
+    return cur
 
 
 def ref_fields(schemas: dict, name: str) -> list:
@@ -915,13 +963,27 @@ def _eval_case(case: dict) -> list:
     # ---- C02
     spec = dict((n, f) for n, f in r["spec"])
     nodes = dict((d[0], d[1]) for d in decls)
+    oa_schemas = spec_of(decls)["components"]["schemas"]
     for n, fs, kind in r["fields"]:
-        ok = fs is not None and kind == "full" and _same_field_set(fs, spec[n])
+        node = nodes[n]
+        while "n" in node:
+            node = node["n"]
+        # properties that are nested-pointer $refs are judged against what the pointer really designates; the name-based
+        # denotation (shared with the Lean `specFields`, which sees the last segment only) judges all the others
+        via = {kv[0]: kv[1] for kv in (node.get("o") or []) if isinstance(kv[1], dict) and kv[1].get("via")} if isinstance(node.get("o"), list) else {}
+        if via and fs is not None and kind == "full":
+            for k, pn in via.items():
+                target = _pointer_target(oa_schemas, pn)
+                want = ref_kind(target) if isinstance(target, dict) and "$ref" not in target else None
+                got = next((f[2] for f in fs if f[0] == k), None)
+                if want is not None and got != want:
+                    fail("nested-pointer-ref-resolved-by-last-segment", {"key": k, "kind": got},
+                         {"key": k, "kind": want, "pointer": to_openapi(pn)["$ref"]}, name=n)
+        fs_n = None if fs is None else [f for f in fs if f[0] not in via]
+        spec_n = [f for f in spec[n] if f[0] not in via]
+        ok = fs_n is not None and kind == "full" and _same_field_set(fs_n, spec_n)
         if not ok:
-            node = nodes[n]
-            while "n" in node:
-                node = node["n"]
-            fail(_classify_c02(decls, n, node, kind, fs or [], spec[n]), {"kind": kind, "fields": fs},
+            fail(_classify_c02(decls, n, node, kind, fs_n or [], spec_n), {"kind": kind, "fields": fs},
                  {"kind": "full", "fields": spec[n]}, name=n)
     # ---- C19: declaration order / property order
     perm = case.get("perm")
@@ -981,6 +1043,9 @@ KNOWN_WITNESSES = [
            ["Bb", {"o": [["p0", R("Zz")], ["p1", R("Zz")]], "q": [], "a": None}]], None),
     (2, [["A", {"o": [["b", R("B")]], "q": [], "a": None}], ["B", {"o": [["c", R("C")]], "q": [], "a": None}],
          ["C", {"o": [["x", {"p": "string", "e": False}]], "q": [], "a": None}]], [2, 1, 0]),
+    # F66: a $ref below a component is resolved by its last segment
+    (150, [["Order", {"o": [["status", {"p": "string", "e": False}], ["copy", {"r": "status", "via": "Order/properties"}]], "q": [], "a": None}],
+           ["Status", {"o": [["x", {"p": "integer", "e": False}]], "q": [], "a": None}]], None),
 ]
 
 
